@@ -392,6 +392,25 @@ def stepFpi (st : DState) (cmd : String) (args : List String) : DState × String
       | _, _, _, _ => (st, "bad-op")
   | _, _ => (st, "bad-op")
 
+def parseShape? (toks : List String) : Option Shape :=
+  if toks == ["()"] then some [] else toks.mapM String.toNat?
+
+def showShape (s : Shape) : String := if s.isEmpty then "()" else " ".intercalate (s.map toString)
+
+def stepShp (st : DState) (cmd : String) (args : List String) : DState × String :=
+  match cmd with
+  -- shp.loop s1 | s2 | ...      (each shape: space separated dims, "()" for a 0-d scalar)
+  | "shp.loop" =>
+      match (splitBar args).mapM parseShape? with
+      | some shapes => (st, showShape (loopShape shapes))
+      | none => (st, "bad-op")
+  -- shp.out loop | out
+  | "shp.out" =>
+      match (splitBar args).mapM parseShape? with
+      | some [l, o] => (st, showShape (outShape l o))
+      | _ => (st, "bad-op")
+  | _ => (st, "bad-op")
+
 def step (st : DState) (line : String) : DState × String :=
   match (line.trimAscii.toString.splitOn " ").filter (· ≠ "") with
   | [] => (st, "")
@@ -403,6 +422,7 @@ def step (st : DState) (line : String) : DState × String :=
       else if cmd.startsWith "sys." then stepSys st cmd args
       else if cmd.startsWith "ref." then stepRef st cmd args
       else if cmd.startsWith "fpi." then stepFpi st cmd args
+      else if cmd.startsWith "shp." then stepShp st cmd args
       else (st, "bad-op")
 
 partial def loop (h : IO.FS.Stream) (out : IO.FS.Stream) (st : DState) : IO Unit := do
